@@ -91,7 +91,13 @@ Stop == /\ ~stopped /\ stopped' = TRUE
         /\ last' = <<"Stop", now>>
         /\ UNCHANGED <<now, tt, conn, usable, pings, dropped, conns, internal>>
 
-Next == Tick \/ TimerFires \/ ConnMade \/ ConnLost \/ Stop \/ (\E k \in 1..(Horizon + 2) : Pong(k))
+\* a record that is not a pong arrives on the connection in use (an ack, data of some subchannel).  It says nothing about whether
+\* the peer answers our pings - a half-open connection still delivers such records - and leaves the monitor alone
+OtherTraffic == /\ conn > 0 /\ ~stopped
+                /\ last' = <<"OtherTraffic", conn>>
+                /\ UNCHANGED <<now, tt, timer, conn, usable, pings, dropped, stopped, conns, internal>>
+
+Next == Tick \/ TimerFires \/ ConnMade \/ ConnLost \/ Stop \/ OtherTraffic \/ (\E k \in 1..(Horizon + 2) : Pong(k))
 Spec == Init /\ [][Next]_vars
 
 \* ---- properties ------------------------------------------------------------------------------------------------------
